@@ -14,10 +14,11 @@ FUNCTIONS = ['glbfloor', 'optimize_allocation', 'solve_and_extract_solution', 'e
 BOUNDS = {'quick': '4 concrete instances (2-cell die with two soft modules; die with a fixed module; soft + movable hard module of two '
                    'rectangles, flip off and on) x max_iter 1; threshold and alpha symbolic in (0,1); everything the '
                    'optimiser decides (all allocation ratios, centres, dispersions) symbolic',
-          'thorough': '4-cell dies, a blockage, max_iter 2 on every instance'}
+          'thorough': '4-cell dies, a blockage, max_iter 2 on the soft and fixed instances (two optimisation rounds with a refinement in between)'}
 STUBS = ['GEKKO replaced by a recording object: every Var is a fresh real within its bounds; when solve() returns the variables hold an '
          'ARBITRARY point satisfying the bounds and the posted LINEAR equations; nonlinear equations (dispersion, mirrored offsets) are '
-         'not assumed (a weakening); Minimize ignored', 'plotting not reached (plotting_options=None)']
+         'not assumed (a weakening; linearity is judged in the variables of the current optimisation model - values fixed by an earlier '
+         'optimisation are constants); Minimize ignored', 'plotting not reached (plotting_options=None)']
 ASSUMPTIONS = ['the optimiser returns (its tolerance is not modelled: constraints hold exactly)', 'dies and netlists concrete']
 NOT_DECIDED = ['"within solver tolerance"', 'whether/when IPOPT returns', 'mirroring decisions of flippable modules beyond rigidity '
                '(the squared-offset equations are nonlinear and not assumed)']
@@ -51,28 +52,68 @@ class GVar(SymReal):
 
 
 class CVar(float):
-    """concrete-mode counterpart: a float carrying .value like a GEKKO variable"""
+    """concrete-mode counterpart: a float carrying .value like a GEKKO variable; arithmetic keeps the type and comparisons are
+    tolerant (1e-7), so that the posted equations can be checked against the replayed optimiser outcome"""
+    TOL = 1e-7
+
     def __new__(cls, x):
         o = float.__new__(cls, x)
         o.value = GValue([float(x)])
         return o
+
+    def _w(self, v):
+        return CVar(v) if isinstance(v, float) else v
+
+    def __add__(self, o): return self._w(float.__add__(self, o))
+    def __radd__(self, o): return self._w(float.__radd__(self, o))
+    def __sub__(self, o): return self._w(float.__sub__(self, o))
+    def __rsub__(self, o): return self._w(float.__rsub__(self, o))
+    def __mul__(self, o): return self._w(float.__mul__(self, o))
+    def __rmul__(self, o): return self._w(float.__rmul__(self, o))
+    def __truediv__(self, o): return self._w(float.__truediv__(self, o))
+    def __rtruediv__(self, o): return self._w(float.__rtruediv__(self, o))
+    def __neg__(self): return self._w(float.__neg__(self))
+    def __pow__(self, o): return self._w(float.__pow__(self, o))
+
+    def _t(self, o):
+        return CVar.TOL * max(1.0, abs(float(self)), abs(float(o)))
+
+    def __eq__(self, o): return abs(float(self) - float(o)) <= self._t(o)
+    def __ne__(self, o): return not self.__eq__(o)
+    def __le__(self, o): return float(self) <= float(o) + self._t(o)
+    def __ge__(self, o): return float(self) >= float(o) - self._t(o)
+    __hash__ = float.__hash__
 
 
 class Options:
     pass
 
 
-def nonlinear(e):
+def nonlinear(e, prefix):
+    """is the constraint nonlinear in the variables of THIS optimisation model (names starting with prefix)?  Values fixed by an
+    earlier optimisation (other prefixes) are constants for this model, whatever expression they are."""
     import z3
+    memo = {}
+
+    def has_var(t):
+        k = t.get_id()
+        if k not in memo:
+            if z3.is_const(t) and t.decl().kind() == z3.Z3_OP_UNINTERPRETED:
+                memo[k] = str(t).startswith(prefix)
+            else:
+                memo[k] = any(has_var(c) for c in t.children())
+        return memo[k]
     stack = [e]
     while stack:
         t = stack.pop()
         if z3.is_app(t):
             k = t.decl().kind()
             ch = t.children()
-            if k == z3.Z3_OP_MUL and sum(1 for c in ch if not (z3.is_rational_value(c) or z3.is_int_value(c))) > 1:
+            if k == z3.Z3_OP_MUL and sum(1 for c in ch if has_var(c)) > 1:
                 return True
-            if k in (z3.Z3_OP_DIV, z3.Z3_OP_POWER) and not (z3.is_rational_value(ch[1]) or z3.is_int_value(ch[1])):
+            if k in (z3.Z3_OP_DIV, z3.Z3_OP_POWER) and has_var(ch[1]):
+                return True
+            if k == z3.Z3_OP_POWER and has_var(ch[0]):
                 return True
             stack.extend(ch)
     return False
@@ -89,6 +130,7 @@ class FakeGEKKO:
         FakeGEKKO.count += 1
         self.id = FakeGEKKO.count
         self.skipped = 0
+        self.concrete = []
 
     def Var(self, value=None, lb=None, ub=None, name=None, integer=False):
         self.nvars += 1
@@ -117,10 +159,11 @@ class FakeGEKKO:
         I = FakeGEKKO.I
         for c in self.eqs:
             if isinstance(c, bool):
-                if I.mode == 'symbolic':
-                    I.assume(c)
+                # concrete replays: the replayed optimiser outcome must satisfy the (linear) equations this run posts, otherwise the
+                # replay has left the counterexample's path (rounding) and says nothing
+                I.assume(c) if I.mode == 'symbolic' else self.concrete.append(c)
                 continue
-            if I.mode == 'symbolic' and nonlinear(c.e):
+            if I.mode == 'symbolic' and nonlinear(c.e, f'g{self.id}.'):
                 self.skipped += 1
                 continue
             if I.mode == 'symbolic':
@@ -154,7 +197,8 @@ def cases(tier):
     cs = [dict(inst='soft2', max_iter=1), dict(inst='fixed', max_iter=1), dict(inst='fixed-overlap', max_iter=1),
           dict(inst='hard', max_iter=1), dict(inst='hardflip', max_iter=1)]
     if tier == 'thorough':
-        cs += [dict(inst='soft2', max_iter=2), dict(inst='grid4', max_iter=1), dict(inst='blockage', max_iter=2), dict(inst='fixed', max_iter=2), dict(inst='hard', max_iter=2)]
+        cs += [dict(inst='soft2', max_iter=2), dict(inst='grid4', max_iter=1), dict(inst='blockage', max_iter=2), dict(inst='fixed', max_iter=2),
+               dict(inst='fixed-overlap', max_iter=2)]
     return cs
 
 
